@@ -40,6 +40,7 @@ def corpus(rng, tier):
         '.a{t: f(, 1)}', '.a{t: darken(#fff)}', '.a{t: round()}', '.a{t: mix(#fff)}', '.a{t: escape()}', '.a{t: darken(, 10%)}',
         '.m(@i){.s-@{i}{top:0}}\n.a{.m(@i: 3);}', '.m(@i){.n-@{i}{top:0}}\n.m(@i: 7);',
         '@x: 1px 2px;\n.a{w:@x + 1}', '@x: 1px 2px;\n.m() when (@x > 1){t:0}\n.a{.m;}', '@b: 5px;\n@a: @b;\n.x{w:@@a}', '@b: 5px;\n@a: (1 + 1);\n.x{w:@@a}',
+        '.a{w:5/0px}', '@z: 0;\n.a{w:5/@z}', '.a{w:(5px / 0px)}',
         '.a{-@v: 1px}', '-@v: 1px;\n.a{top:0}', '.a{--@bg: #e0e0e0;}',
         '.a:not(.b):nth-child(2n+1){x:y}', '.a[href^="http"]{x:y}', '@font-face{font-family:x}', '.a{x:@@y; z:@{w}}', '--x{--y:1}', '.a{-moz-x:1;--v:2}',
         '@keyframes k{from{a:b}50%{c:d}to{e:f}}', '.a{width:calc(100% - 10px)}', '.a{b:e("%d", 1) %("%s", x)}', '/* c */ // d\n.a{/* e */b:c // f\n}',
